@@ -30,15 +30,20 @@ def lemma_obligations(ctx: Ctx, lem: api.Lemma):
     for r in lem.requires:
         pc.append(Pure(ctx, env).b(_parse_spec(r)))
     if lem.induct:
+        # induction hypothesis: the lemma at induct+step, admissible because the (integer)
+        # measure is non-negative there and strictly smaller than here
         k = vs[lem.induct]
         from .kinds import VInt
 
         vs2 = dict(vs)
-        vs2[lem.induct] = VInt(k.t - 1)
+        vs2[lem.induct] = VInt(k.t + lem.step)
         env2 = Env(vs2, {})
+        dec = lem.decreases or lem.induct
+        d0 = Pure(ctx, env).ev(_parse_spec(dec)).t
+        d1 = Pure(ctx, env2).ev(_parse_spec(dec)).t
         hyp = [Pure(ctx, env2).b(_parse_spec(r)) for r in lem.requires]
         con = [Pure(ctx, env2).b(_parse_spec(e)) for e in lem.ensures]
-        pc.append(z3.Implies(z3.And(k.t - 1 >= 0, *hyp), z3.And(*con)))
+        pc.append(z3.Implies(z3.And(d1 >= 0, d1 < d0, *hyp), z3.And(*con)))
     if not ctx.expand_quant:
         for u in lem.uses:
             pc.append(lemma_fact(ctx, u))
